@@ -200,6 +200,14 @@ func c16Run(c *Ctx, cs c16Case, count bool, neighbours ...jnode) {
 		recv = stackage.And().SetMutex().Push("pre")
 	case "and-mutex-policy": // locking and a push policy together: the appended element goes through both
 		recv = stackage.And().SetMutex().SetPushPolicy(func(...any) error { return nil }).Push("pre")
+	case "and-mutex-marshaler": // locking and a marshal closure of the user's own that writes to the receiver, as the package's example does
+		recv = stackage.And().SetMutex().Push("pre")
+		r := recv
+		recv.SetMarshaler(func(x ...any) error {
+			r.Push(fmt.Sprintf("marshaled %d value(s)", len(x)))
+			r.SetID("seen")
+			return nil
+		})
 	}
 	wasInit := recv.IsInit()
 	var before string
@@ -251,6 +259,19 @@ func c16Run(c *Ctx, cs c16Case, count bool, neighbours ...jnode) {
 				return
 			}
 		}
+	}
+	if cs.Recv == "and-mutex-marshaler" {
+		// the user's closure decides what Marshal does: what is asked here is that it returns at all, and
+		// leaves the lock as it found it
+		if cs.Form == "spread" && len(in) == 0 {
+			c.Outcome("custom-marshaler:empty-input") // no arguments at all: refused before anybody is asked
+			return
+		}
+		if err != nil || recv.Len() != lenBefore+1 || recv.ID() != "seen" {
+			c.Violation("custom-marshaler-not-honoured", fmt.Sprintf("%s: err=%v Len %d->%d ID %q, want what the closure does (nil, one value pushed, the ID set)", desc, err, lenBefore, recv.Len(), recv.ID()), cs, size)
+		}
+		c.Outcome("custom-marshaler")
+		return
 	}
 	if err != nil {
 		c.Outcome("error:" + err.Error())
@@ -523,6 +544,17 @@ func c16Inputs(c *Ctx) []jnode {
 		}
 		out = append(out, sc, l(s("LIST"), cc), l(s("AND"), alt), alt)
 	}
+	// envelopes that hold something Marshal cannot convert (an unlabelled list) as their last list-valued
+	// entry, as a CONDITION row's expression and as a nested stack: the envelope itself is decoded all the same
+	for _, junk := range []jnode{l(jnode{T: "int"}, jnode{T: "int"}), l(), l(jnode{T: "nil"})} {
+		for _, lab := range []string{"LIST", "and", "Or"} {
+			env := l(s(lab), s("a"), junk)
+			env2 := l(s(lab), l(s("OR"), s("fine")), junk, s("after"))
+			row := l(s("CONDITION"), s("kw"), jnode{T: "op"}, env)
+			out = append(out, row, l(s("AND"), row), l(s("AND"), row, s("tail")), l(s("OR"), env, s("tail")), l(s("LIST"), env2), l(s("NOT"), l(s("CONDITION"), s("k2"), jnode{T: "uop"}, env2)),
+				l(s("AND"), l(s("OR"), row, env)), l(s("BASIC"), env, row))
+		}
+	}
 	// width up to 4/5 over a small alphabet
 	w := []jnode{s("AND"), s("x"), {T: "nil"}, l(), l(s("CONDITION"), s("k"), s("="), s("v")), {T: "cond0"}}
 	maxW := 4
@@ -549,7 +581,7 @@ func init() {
 	register(&Check{ID: "C16", Engine: "B", Run: func(c *Ctx) {
 		inputs := c16Inputs(c)
 		installLockModel()
-		recvs := []string{"zero", "and", "full", "read-only", "and-mutex", "and-mutex-policy"}
+		recvs := []string{"zero", "and", "full", "read-only", "and-mutex", "and-mutex-policy", "and-mutex-marshaler"}
 		forms := []string{"spread", "envelope"}
 		c.Rule = "every []any input of the bounded family (labels in any case, junk and empty strings, numbers, nil, typed nil pointers, valid / zero / user / empty operators and non-operators in the operator position, ready-made and zero Stacks and Conditions, empty and nested envelopes, CONDITION rows of length 1..6, nesting depth up to 3, width up to 4/5) x receiver {zero, initialised, full, read-only} x {Marshal(in...), Marshal(in)}; oracle: no panic; error, or an initialised receiver on which String/Unmarshal/IsEqual/Valid/Len/Kind return; label honoured case-insensitively; unknown leading string gives BASIC with all entries; initialised receiver grows by exactly one Stack/Condition; non-trivial = distinct inputs that were decoded"
 		c.Bound["inputs"] = len(inputs)
